@@ -272,21 +272,30 @@ static void fam_block()
 					delete p;
 				}
 			}
-			std::vector<int> bits = flip_bits();
+			std::vector<int> bits = flip_bits(), sigs;
+			size_t nb = bits.size();
 			size_t sub_start = b.pk[0].size() + b.pk[1].size() + b.pk[2].size();
-			for (size_t pos = 0; pos < b.all.size(); pos++)
-				for (size_t bi = 0; bi < bits.size(); bi++)
-				{
-					octets m(b.all);
-					m[pos] ^= (1u << bits[bi]);
-					bool same = block_same(b.pk, m, pos >= sub_start);
-					// a flip inside the subkey part is judged on the subkey verdict, one in the primary part on the user id verdict
-					bool acc = block_accept(m, pos >= sub_start);
-					R->ok(true);
-					R->counters[same ? "block_flips_unconstrained" : "block_flips_covered"]++;
-					if (!same && acc)
-						R->viol("tamper/block-accepted", std::string(s.name) + ": key block still checks out with octet " + str(pos) + " bit " + str(bits[bi]) + " flipped (packet boundaries " + str(b.pk[0].size()) + "," + str(b.pk[1].size()) + "," + str(b.pk[2].size()) + "," + str(b.pk[3].size()) + ")", cid);
-				}
+			// a flip inside the subkey part is judged on the subkey verdict, one in the primary part on the user id verdict
+			std::string verdict = forked_scan(b.all.size() * nb, [&](size_t i) {
+				octets m(b.all);
+				m[i / nb] ^= (1u << bits[i % nb]);
+				return block_accept_raw(m, i / nb >= sub_start);
+			}, sigs);
+			for (size_t i = 0; i < verdict.size(); i++)
+			{
+				size_t pos = i / nb;
+				int bit = bits[i % nb];
+				octets m(b.all);
+				m[pos] ^= (1u << bit);
+				bool same = block_same(b.pk, m, pos >= sub_start);
+				R->ok(true);
+				R->counters[same ? "block_flips_unconstrained" : "block_flips_covered"]++;
+				std::string where = " (packet sizes " + str(b.pk[0].size()) + "," + str(b.pk[1].size()) + "," + str(b.pk[2].size()) + "," + str(b.pk[3].size()) + "," + str(b.pk[4].size()) + ")";
+				if (verdict[i] == 'C')
+					crash_viol(sigs[i], std::string("keyblock-check/") + s.name, "key block with octet " + str(pos) + " bit " + str(bit) + " flipped" + where, cid);
+				else if (!same && verdict[i] == 'A')
+					R->viol("tamper/block-accepted", std::string(s.name) + ": key block still checks out with octet " + str(pos) + " bit " + str(bit) + " flipped" + where, cid);
+			}
 			// whole-object swaps: another user id, another subkey, signatures exchanged
 			{
 				octets m, uid2;
